@@ -131,6 +131,13 @@ def run_oracle(scn, tr):
         elif t == "gp_add":
             evals += 1
             g, b4 = e["gp"], e["before"]
+            if e.get("update_failed") and len(g["X"]) == len(b4["X"]):
+                # the posterior could not be computed with the new point (singular covariance): the previous one is kept,
+                # untouched, and the point enters at the next refit
+                labs.add("add:update-failed-previous-kept")
+                if not (np.array_equal(g["X"], b4["X"]) and np.array_equal(g["y"], b4["y"])):
+                    add([viol("c:add-changed-existing-rows", f"failed update left a different training set ({len(b4['X'])} rows)")])
+                continue
             if len(g["X"]) != len(b4["X"]) + 1 or not (np.array_equal(g["X"][:-1], b4["X"]) and np.array_equal(g["y"][:-1], b4["y"])):
                 add([viol("c:add-changed-existing-rows", f"before {len(b4['X'])} rows, after {len(g['X'])}")])
                 continue
